@@ -521,6 +521,9 @@ func c16readers(c *fw.Ctx) {
 			defer wg.Done()
 			rr := rand.New(rand.NewSource(seeds[gi]))
 			for i := 0; i < 60; i++ {
+				if i%8 == 0 {
+					runtime.Gosched()
+				}
 				switch rr.Intn(6) {
 				case 0:
 					_, _ = lab.IterAll(shared)
@@ -545,11 +548,62 @@ func c16readers(c *fw.Ctx) {
 			}
 		}(gi)
 	}
-	wg.Wait()
-	if b := bad.Load(); b != nil {
-		c.Violate("", "readers only, %d of %d nodes absent from the store: %s", removed, len(nodes), b.(string))
+	// in two thirds of the runs 1..2 writers insert fresh paths (outside the preloaded alphabet, so no preloaded path and
+	// no absent node is involved) while the readers run: the readers' expected results do not change
+	W := r.Intn(3)
+	type ins struct {
+		p string
+		v []byte
 	}
-	_ = bytes.Equal
+	inserted := make([][]ins, W)
+	wseeds := make([]int64, W)
+	for i := range wseeds {
+		wseeds[i] = r.Int63()
+	}
+	for wi := 0; wi < W; wi++ {
+		wg.Add(1)
+		go func(wi int) {
+			defer wg.Done()
+			rr := rand.New(rand.NewSource(wseeds[wi]))
+			for i := 0; i < 20; i++ {
+				p := fmt.Sprintf("7%d%02x", 7+wi, rr.Intn(64))
+				if rr.Intn(2) == 0 {
+					p += fmt.Sprintf("%02x", rr.Intn(4))
+				}
+				v := []byte(fmt.Sprintf("w%d-%d", wi, i))
+				if _, err := shared.Insert(util.Path(p), &lab.Val{B: v}); err == nil {
+					// later inserts of the same path by this writer overwrite: remember the last
+					inserted[wi] = append(inserted[wi], ins{p, v})
+				} else {
+					bad.Store(fmt.Sprintf("writer: Insert(%q) failed: %v", p, err))
+				}
+			}
+		}(wi)
+	}
+	wg.Wait()
+	if b := bad.Load(); b == nil && W > 0 {
+		last := map[string][]byte{}
+		for _, l := range inserted {
+			for _, e := range l {
+				last[e.p] = e.v
+			}
+		}
+		for p, v := range last {
+			if d, err := shared.GetNodeValueRaw(util.Path(p)); err != nil || !bytes.Equal(d, v) {
+				bad.Store(fmt.Sprintf("after the run: lookup of inserted path %q = %q, %v; last value written %q", p, d, err, v))
+			}
+		}
+		for _, k := range keys {
+			d, err := shared.GetNodeValueRaw(util.Path(k))
+			if got := string(d) + "|" + errClass(err); got != want[k] {
+				bad.Store(fmt.Sprintf("after the run: lookup %q = %q, before the writers %q", k, got, want[k]))
+			}
+		}
+		c.Count("reader_runs_with_writers", 1)
+	}
+	if b := bad.Load(); b != nil {
+		c.Violate("", "%d readers, %d writers of fresh paths, %d of %d nodes absent from the store: %s", G, W, removed, len(nodes), b.(string))
+	}
 	c.Count("reader_runs", 1)
 	if removed > 0 {
 		c.Count("reader_runs_with_missing_nodes", 1)
@@ -620,9 +674,9 @@ func c16expiredSave(c *fw.Ctx) {
 
 func c16layout(tier string) (hist, readers, expired int) {
 	if tier == "thorough" {
-		return 150000, 6000, 30000
+		return 150000, 20000, 30000
 	}
-	return 4800, 200, 1600
+	return 4800, 800, 1600
 }
 
 func runC16(c *fw.Ctx) {
@@ -639,16 +693,17 @@ func runC16(c *fw.Ctx) {
 
 func init() {
 	fw.Register(&fw.Prop{
-		ID:    "C16",
-		Level: "exploration",
-		Race:  true,
+		ID:           "C16",
+		Level:        "exploration",
+		StallSeconds: 240,
+		Race:         true,
 		Rule: "histories: 3..6 goroutines x 4..8 (quick) / 4..11 (thorough) operations (insert with globally unique value, delete, lookup, full Iterate, GetRoot, GetChanges as a snapshot (root plus the content reachable through the returned change set, which must belong to one state), SaveChanges with a plain, an already cancelled and a 20 µs context + GetChangeCount) on 3..5 structurally colliding paths of one trie over a store wrapper that injects Gosched/µs sleeps at GetNode/PutNode/DeleteNode, " +
 			"GOMAXPROCS in {1,2,4,16}; call/return stamped at the client boundary from one monotonic clock; a final sequential Iterate+GetRoot is appended. Each history is checked offline with porcupine against a sequential map model in which Iterate must equal the whole map and every root read must equal the independent canonical root (C02 reference) of the state at its linearization point. " +
-			"a quarter of the histories run on a trie object re-opened at the root of preloaded content (saves then go to a layered store with includeDeletes=true); a quarter also merge child tries back (one insert each, through MergeChanges or MergeMPTChanges), modelled as a compare-and-set on the whole content; half of the histories start from a preloaded trie whose node cache was committed to the lower cache layer. expired-save runs: SaveChanges with an already cancelled context followed by 5..45 inserts; the side store may only receive nodes that were pending at the call. reader runs (half with a warmed and committed node cache): 4..8 goroutines doing lookups, Iterate, HasMissingNodes, GetMissingNodeKeys on a trie whose store lacks ~20% of the nodes; results must equal the sequential results. Everything runs in the -race binary; each distinct race report (pair of outermost 0chain/common frames) is a violation. " +
+			"a quarter of the histories run on a trie object re-opened at the root of preloaded content (saves then go to a layered store with includeDeletes=true); a quarter also merge child tries back (one insert each, through MergeChanges or MergeMPTChanges), modelled as a compare-and-set on the whole content; half of the histories start from a preloaded trie whose node cache was committed to the lower cache layer. expired-save runs: SaveChanges with an already cancelled context followed by 5..45 inserts; the side store may only receive nodes that were pending at the call. reader runs (half with a warmed and committed node cache): 4..8 goroutines doing lookups, Iterate, HasMissingNodes, GetMissingNodeKeys on a trie whose store lacks ~20% of the nodes; results must equal the sequential results; in two thirds of the reader runs 1..2 writers insert fresh paths at the same time (the readers' expected results do not change; afterwards every inserted path and every preloaded path is read again). A case that does not finish within 240 s (normal: well under a second plus at most 30 s of history checking) ends the worker and is reported: an operation did not return. Everything runs in the -race binary; each distinct race report (pair of outermost 0chain/common frames) is a violation. " +
 			"non-trivial = history with at least one update overlapping another goroutine's operation; distinct by (scripts, overlap count)",
 		Cases: func(tier string) int { h, r, e := c16layout(tier); return h + r + e },
 		Run:   runC16,
-		Floors: map[string]int64{"histories": 4500, "linearizable": 4500, "operations": 80000, "overlapping_pairs": 20000, "histories_with_overlapping_updates": 2000, "reader_runs": 200, "reader_runs_with_missing_nodes": 150, "final_saves_checked": 4500, "histories_with_committed_node_cache": 1500, "histories_on_a_reopened_trie": 800, "histories_with_merges": 800, "merges_accepted": 500, "merges_rejected": 100, "reader_runs_with_committed_node_cache": 50, "expired_save_runs": 1500,
+		Floors: map[string]int64{"histories": 4500, "linearizable": 4500, "operations": 80000, "overlapping_pairs": 20000, "histories_with_overlapping_updates": 2000, "reader_runs": 800, "reader_runs_with_writers": 400, "reader_runs_with_missing_nodes": 600, "final_saves_checked": 4500, "histories_with_committed_node_cache": 1500, "histories_on_a_reopened_trie": 800, "histories_with_merges": 800, "merges_accepted": 500, "merges_rejected": 100, "reader_runs_with_committed_node_cache": 50, "expired_save_runs": 1500,
 			"gomaxprocs:1": 100, "gomaxprocs:16": 100},
 		Assumptions: []string{
 			"histories are small (<= 6 x 11 operations) and numerous; a porcupine timeout (30 s) would be inconclusive, never a violation",
